@@ -89,7 +89,6 @@ Lemma Inv_set_slot : forall c s mi a, Inv c s -> Inv c (set_slot s mi a).
 Proof. intros; eapply Inv_same; eauto; cbn; rewrite ?upd_length; auto. Qed.
 
 (** unset zeroed-once flags of a machine *)
-Definition zc_rt (r : mrt) : N := (if za r then 0 else 1) + (if zb r then 0 else 1).
 Definition zc (s : fstate) (mi : nat) : N :=
   match nth_error (rts s) mi with Some r => zc_rt r | None => 0 end.
 
